@@ -321,3 +321,85 @@ def bounded_float_overhang(rng, tier):
             samples.append({"edge": kind, "k": k, "rect": rect, "verdict": v})
     return {"evaluations": evals, "distinct_nontrivial": len(distinct), "failures": failures[:5], "n_failures": len(failures),
             "samples": samples}
+
+
+# ------------------------------------------------------------------ bounded: the mosaic loop of elevation() on synthetic tiles
+@bounded(P, "mosaic-synthetic-tiles", "elevation() with get_tile replaced by synthetic tiles whose value encodes (tile, row, column): every cell "
+         "of the returned block must hold the value of the tile cell at its own coordinates; rectangles inside one tile, across 2 and 4 "
+         "tiles, thinner than a cell, touching tile borders, near +-180 and the poles; 25 (quick) / 200 (thorough) rectangles")
+def bounded_mosaic(rng, tier):
+    import numpy as np
+    rounds = 25 if tier == "quick" else 200
+    evals, failures, samples, distinct = 0, [], [], set()
+    H, W = SRTM30._tile_height, SRTM30._tile_width
+    cache = {}
+
+    def synth(name):
+        if name not in cache:
+            if len(cache) > 6:
+                cache.clear()
+            k = (sum(ord(ch) * (i + 1) for i, ch in enumerate(name)) % 97) * 1000003
+            r = np.arange(H, dtype=np.int64).reshape(-1, 1)
+            c = np.arange(W, dtype=np.int64).reshape(1, -1)
+            cache[name] = ((k + r * 4801 + c) % 30011).astype(">i2")
+        return cache[name]
+    orig = SRTM30.get_tile
+    SRTM30.get_tile = staticmethod(synth)
+    try:
+        corners = [(10.0, 20.0), (40.0, -20.0), (40.0, 20.0), (-10.0, 60.0), (40.0, 140.0), (-10.0, -100.0)]      # tile corners (lat, lon)
+        for r in range(rounds):
+            kind = rng.choice(["inside", "corner", "edge", "thin", "dateline", "north"])
+            if kind == "inside":
+                la0, lo0 = rng.uniform(-55, 85), rng.uniform(-175, 170)
+                la1, lo1 = la0 + rng.uniform(0.01, 0.4), lo0 + rng.uniform(0.01, 0.4)
+            elif kind == "corner":
+                cla, clo = rng.choice(corners)
+                la0, lo0, la1, lo1 = cla - rng.uniform(0.01, 0.2), clo - rng.uniform(0.01, 0.2), cla + rng.uniform(0.01, 0.2), clo + rng.uniform(0.01, 0.2)
+            elif kind == "edge":
+                cla, clo = rng.choice(corners)
+                la0, lo0, la1, lo1 = cla - 0.1, clo + 0.3, cla + 0.1, clo + 0.5
+                if rng.random() < 0.5:
+                    la0 = cla                                       # touching the tile border exactly
+            elif kind == "thin":
+                la0, lo0 = rng.uniform(-50, 80), rng.uniform(-170, 170)
+                la1, lo1 = la0 + rng.uniform(1e-4, 0.004), lo0 + rng.uniform(1e-4, 0.004)
+            elif kind == "dateline":
+                la0, la1 = 5.0, 5.2
+                lo0, lo1 = rng.choice([(-180.0, -179.8), (179.7, 179.99), (-179.95, -179.7)])
+            else:
+                la0, lo0, la1, lo1 = 89.6, rng.uniform(-170, 170), 89.99, None
+                lo1 = lo0 + 0.3
+            evals += 1
+            distinct.add((kind, round(la0, 3), round(lo0, 3)))
+            case = {"kind": kind, "rect": [la0, lo0, la1, lo1]}
+            try:
+                lats, lons, elev = SRTM30.elevation(la0, lo0, la1, lo1)
+            except Exception as exc:
+                failures.append(dict(case, problem="exception %r" % (exc,)))
+                continue
+            if elev.shape != (lats.size, lons.size):
+                failures.append(dict(case, problem="block shape %s for %d x %d grid points" % (elev.shape, lats.size, lons.size)))
+                continue
+            bad = None
+            for a in list(range(min(lats.size, 3))) + list(range(max(0, lats.size - 3), lats.size)) + [rng.randrange(lats.size) for _ in range(4)]:
+                for b in list(range(min(lons.size, 3))) + list(range(max(0, lons.size - 3), lons.size)) + [rng.randrange(lons.size) for _ in range(4)]:
+                    la, lo = float(lats[a]), float(lons[b])
+                    hit = [tt for tt in SRTM30._tiles if tt[1] <= la < tt[3] and tt[2] <= lo < tt[4]]      # the tile table itself
+                    if len(hit) != 1:
+                        continue
+                    name, lat_min, lon_min, lat_max, lon_max = hit[0]
+                    row = int(round((lat_max - la) / SRTM30._dlat - 0.5))
+                    col = int(round((lo - lon_min) / SRTM30._dlon - 0.5))
+                    want = int(synth(name)[row, col])
+                    if int(elev[a, b]) != want:
+                        bad = {"cell": [a, b], "lat": la, "lon": lo, "tile": name, "tile_cell": [row, col], "got": float(elev[a, b]), "want": want}
+                        break
+                if bad:
+                    break
+            if bad:
+                failures.append(dict(case, problem="a cell does not hold the tile value at its coordinates", **bad))
+            elif len(samples) < 3:
+                samples.append(dict(case, shape=list(elev.shape)))
+    finally:
+        SRTM30.get_tile = orig
+    return {"evaluations": evals, "distinct_nontrivial": len(distinct), "failures": failures[:5], "samples": samples}
